@@ -11,6 +11,10 @@ import (
 // efficient, it requires less extra traffic while provides comparable entropy.
 const responsePaddingMaxSize = 32
 
+// responsePaddingOptMaxSize is the maximum size of the padding option in a
+// response, including the code and the length of the option.
+const responsePaddingOptMaxSize = responsePaddingMaxSize + 4
+
 // respPadBuf is a fixed buffer to draw on for padding.
 var respPadBuf [responsePaddingMaxSize]byte
 
@@ -74,13 +78,21 @@ func normalize(network Network, proto Protocol, req, resp *dns.Msg, maxMsgSize u
 	}
 
 	// Make sure that we don't send messages larger than the protocol supports.
-	truncate(resp, maxDNSSize(network, ednsUDPSize, maxMsgSize))
+	// If the response is going to be padded, leave the room for the padding
+	// option, since otherwise the padded response could exceed the limit.
+	size := maxDNSSize(network, ednsUDPSize, maxMsgSize)
+	shouldPad := proto.HasPaddingSupport() && findOption[*dns.EDNS0_PADDING](reqOpt) != nil
+	if shouldPad {
+		size -= responsePaddingOptMaxSize
+	}
+
+	truncate(resp, size)
 
 	// Always compress the response.
 	resp.Compress = true
 
 	// In the case of encrypted protocols we should pad responses.
-	if proto.HasPaddingSupport() {
+	if shouldPad {
 		padAnswer(reqOpt, respOpt)
 	}
 }
